@@ -95,6 +95,7 @@ type FuncVC struct {
 	lockHeld map[string]bool
 	dry      dryInfo
 	lastSpecResults []Val
+	callVerbHits    map[int]int // callverb clause index -> number of matching emission sites
 	copyOuts        []func() // pending copy-outs of receiver cells (see evalArgs)
 	storeLog []storeRec
 	softNotes []string
